@@ -180,7 +180,7 @@ func (p *Parser) SkipToTargetToken(target string) error {
 			return err
 		}
 
-		if nextT.IsTargetIdentifier(target) {
+		if nextT == nil || nextT.IsTargetIdentifier(target) {
 			break
 		}
 	}
